@@ -228,6 +228,7 @@ type Exec struct {
 	pendingIdx   []string
 	pendingLeaf  [][3]string
 	refArrs      map[string]bool
+	refKeyHas    map[string]bool // map key sets whose keys are references
 	curFrame *Frame
 	nExitCovers int
 	modExcept []string
@@ -322,6 +323,26 @@ func (st *State) assume(t string) {
 		st.infeasible = true
 	}
 	st.lines = append(st.lines, "(assert "+t+")")
+}
+
+// implTerm: "the dynamic type with this tag implements interface type it" (uninterpreted per interface; facts come from
+// type safety of statically typed interface values and from concrete types whose tag is a known constant)
+func (x *Exec) implTerm(tag string, it types.Type) string {
+	if isDigits(tag) {
+		n := 0
+		fmt.Sscan(tag, &n)
+		if n >= 1 && n <= len(x.typeById) {
+			if iface, ok := it.Underlying().(*types.Interface); ok {
+				return fmt.Sprint(types.Implements(x.typeById[n-1], iface))
+			}
+		}
+		if n == 0 {
+			return "false"
+		}
+	}
+	name := "impl." + mangle(typeShort(it))
+	x.decls.Fun(name, []string{"Int"}, "Bool")
+	return app(name, tag)
 }
 
 // ---- type ids ----
@@ -547,10 +568,19 @@ func (x *Exec) assumeTyping(st *State, v Val) {
 		st.assume(implies(eq(v.Ref, "0"), and(eq(v.Len, x.idxLit(0)), eq(v.Cap, x.idxLit(0)))))
 		if x.mode == ModeInt {
 			st.assume(app("<=", app("+", v.Off, v.Cap), "281474976710656"))
+			if x.con != nil && len(x.con.AllocProps) > 0 {
+				st.assume(app("<=", v.Cap, x.memcap()))
+			}
 		}
 	case KIface:
 		st.assume(and(app("<=", "0", v.Tag), app("<=", "0", v.Pay), app("<=", v.Pay, st.alloc)))
 		st.assume(implies(eq(v.Tag, "0"), eq(v.Pay, "0")))
+		if v.T != nil {
+			if it, ok := v.T.Underlying().(*types.Interface); ok && it.NumMethods() > 0 {
+				// type safety: a non-nil value of static interface type I has a dynamic type that implements I
+				st.assume(implies(not(eq(v.Tag, "0")), x.implTerm(v.Tag, v.T)))
+			}
+		}
 	case KStruct, KTuple:
 		for _, f := range v.Fs {
 			x.assumeTyping(st, f)
@@ -669,6 +699,13 @@ func (x *Exec) heapArr(st *State, name, sort string) string {
 			st.assume(ax)
 		}
 	}
+	if ax := x.keyBoundAxiom(name, base, map[bool]string{true: "alloc!0", false: st.alloc}[st.gen == 0]); ax != "" {
+		if st.gen == 0 {
+			x.ensurePre(ax)
+		} else {
+			st.assume(ax)
+		}
+	}
 	// a callee that "modifies *" cannot reach the caller's stack-allocated locals
 	if old, ok := st.preHavoc[name]; ok && strings.HasPrefix(sort, "(Array Int ") {
 		for _, r := range st.localRefs {
@@ -749,7 +786,19 @@ func (x *Exec) heapHavoc(st *State, name, sort string) (string, string) {
 	if ax := x.nilMapAxiom(name, sort, n); ax != "" {
 		st.assume(ax)
 	}
+	if ax := x.keyBoundAxiom(name, n, st.alloc); ax != "" {
+		st.assume(ax)
+	}
 	return old, n
+}
+
+// keyBoundAxiom: a map whose keys are references holds only keys that exist (no reference into the future): in the version
+// `sym` of the key-set array, every key is <= the allocation counter `alloc` at the time the version came into being.
+func (x *Exec) keyBoundAxiom(name, sym, alloc string) string {
+	if !x.refKeyHas[name] || x.mode != ModeInt {
+		return ""
+	}
+	return fmt.Sprintf("(forall ((m Int) (k Int)) (! (=> (select (select %s m) k) (<= k %s)) :pattern ((select (select %s m) k))))", sym, alloc, sym)
 }
 
 // nilMapAxiom: the nil map (id 0) has no keys and length 0, in every version of a map family's arrays.
@@ -862,7 +911,7 @@ func (x *Exec) updFun(elemSort string) string {
 		x.decls.Fun(name, []string{as, "Int", "Int", elemSort}, as)
 		x.preamble = append(x.preamble,
 			fmt.Sprintf("(assert (forall ((a %s) (o Int) (i Int) (v %s)) (! (= (%s a o i v) (store a (+ o i) v)) :pattern ((%s a o i v)))))", as, elemSort, name, name),
-			fmt.Sprintf("(assert (forall ((a %s) (o Int) (i Int) (v %s) (k Int)) (! (= (%s (%s a o i v) o k) (ite (= k i) v (%s a o k))) :pattern ((%s (%s a o i v) o k)))))", as, elemSort, slc, name, slc, slc, name))
+			fmt.Sprintf("(assert (forall ((a %s) (o Int) (i Int) (v %s) (o2 Int) (k Int)) (! (= (%s (%s a o i v) o2 k) (ite (= (+ o2 k) (+ o i)) v (%s a o2 k))) :pattern ((%s (%s a o i v) o2 k)))))", as, elemSort, slc, name, slc, slc, name))
 	}
 	return name
 }
@@ -1123,6 +1172,13 @@ func (x *Exec) mapInfo(t types.Type) (prefix string, ksort string, vleaves []lea
 		x.unsupported("map key type %s", mt.Key())
 	}
 	prefix = "map_" + typeKey(mt.Key()) + "_" + typeKey(mt.Elem())
+	switch mt.Key().Underlying().(type) {
+	case *types.Pointer, *types.Map, *types.Chan:
+		if x.refKeyHas == nil {
+			x.refKeyHas = map[string]bool{}
+		}
+		x.refKeyHas[prefix+".has"] = true
+	}
 	if stt, ok := mt.Elem().Underlying().(*types.Struct); ok && stt.NumFields() == 0 {
 		return prefix, ks, nil
 	}
